@@ -14,7 +14,7 @@ EXTENDS Numbering, Json, IOUtils, SequencesExt
 \*   B.n   items (sprites / scripts / table slots / subs / timelines / instances)
 \*   B.e   ANM entries
 \*   B.all every name sequence (TRUE), or one representative per renaming class (FALSE)
-\*   B.nums how many explicit-number options for ANM scripts
+\*   B.nums how many explicit-number options for ANM scripts; for MSG: 1 = fewer defaults / table_len options
 Bounds(u) == [n |-> atoi(IOEnv.MAXN), e |-> atoi(IOEnv.MAXE), all |-> IOEnv.NAMES = "all", nums |-> atoi(IOEnv.NUMS)]
 
 \* ------------------------------------------------------------ combinatorics
@@ -23,11 +23,13 @@ Compositions(n, e) == {s \in [1..e -> 0..n] : Sum(s) = n}
 Offset(sizes, k) == Sum(SubSeq(sizes, 1, k - 1))
 SplitBy(flat, sizes) == Tup([k \in DOMAIN sizes |-> SubSeq(flat, Offset(sizes, k) + 1, Offset(sizes, k) + sizes[k])])
 
-\* name patterns over a pool of 3: all of them, or restricted-growth strings (one per renaming class)
+\* name patterns over a pool of 3: all of them, or restricted-growth strings (one per renaming class:
+\* every pattern of equal/different names) plus every ordering of pairwise different names
 RGS(n) == {p \in [1..n -> 1..3] :
              /\ (n > 0 => p[1] = 1)
              /\ \A i \in 2..n : p[i] <= MaxOf({p[j] : j \in 1..(i - 1)}) + 1}
-NamePatterns(B, n) == IF B.all THEN [1..n -> 1..3] ELSE RGS(n)
+NamePatterns(B, n) == IF B.all THEN [1..n -> 1..3]
+                      ELSE RGS(n) \cup {p \in [1..n -> 1..3] : Distinct(p)}     \* + every order of distinct names
 NamesDistinctWithin(entries) == \A k \in DOMAIN entries : Distinct([i \in DOMAIN entries[k] |-> entries[k][i].name])
 
 Case(fam, lay, exp) == [fam |-> fam, lay |-> lay, exp |-> exp]
@@ -84,8 +86,8 @@ MsgLayouts(B) ==
     UNION { { [scripts |-> sc, sparse |-> sp, default |-> d, len |-> ln] :
                 sc \in MsgScriptOrders,
                 sp \in UNION { {SparseOf(s, l), Rev(SparseOf(s, l))} : s \in SlotSeqs(l) },
-                d \in {"", "p", "r"},
-                ln \in {-1, l + 2} \cup (IF l >= 2 THEN {l - 1} ELSE {}) } : l \in 0..B.n }
+                d \in (IF B.nums >= 2 THEN {"", "p", "r"} ELSE {"", "r"}),
+                ln \in {-1, l + 2} \cup (IF l >= 2 /\ B.nums >= 2 THEN {l - 1} ELSE {}) } : l \in 0..B.n }
 \* a name that is mentioned but not needed by the written table (unused default, key beyond table_len)
 \* and does not exist is outside what the statement decides: such layouts are not generated
 MsgDecided(t) == (MsgMentionedNames(t) \ MsgUsedNames(t)) \subseteq RangeOf(t.scripts)
